@@ -99,6 +99,8 @@ def kind_ok(v, t):
         return kind_ok(v, t[:-1])
     if t.startswith("(") and t.endswith(")"):
         return kind_ok(v, t[1:-1])
+    if isinstance(v, tuple) and v and v[0] == "big":
+        return t == "bigint"
     if t == "int":
         return is_int(v)
     if t == "bool":
